@@ -79,6 +79,8 @@ class Opts:
         self.strain_bias = 0.0        # probability of choosing a strain stratification whenever one is still possible
         self.shuffle_strat_comps_bias = 0.0  # probability that a stratification lists its compartments in another order than the model does
         self.zero_adjust_bias = 0.0   # probability that a Multiply adjustment is the literal 0 (a stratum that receives / passes nothing)
+        self.shared_labels_bias = 0.0  # probability that a later plain stratification reuses the stratum LABELS of an earlier one (yes/no under two different names)
+        self.inf_adjust_bias = 0.0     # lower bound on the probability that a stratification adjusts infectiousness
         self.split_bias = 0.0          # lower bound on the probability that a stratification carries a population split
         self.inexact_split_bias = 0.0  # probability that a literal split sums to one only within the API's tolerance (0.01), or that a split of two independent parameters is used (not checked by the API)
         self.shuffle_split_bias = 0.0  # probability that the population split is declared in another order than the strata
@@ -419,6 +421,11 @@ class Gen:
             name = r.choice(avail)
             strata = STRATA_POOL[name][: r.randint(1, o.max_strata)]
             if r.random() < 0.3: strata = list(reversed(strata))
+            prev_plain = [s_ for s_ in self.strats if s_["kind"] == "plain" and len(s_["strata"]) >= 2]
+            if o.shared_labels_bias > 0 and prev_plain and r.random() < o.shared_labels_bias:
+                strata = list(r.choice(prev_plain)["strata"])
+                if r.random() < 0.5: strata = list(reversed(strata))
+                self.count("strat:labels_shared_with_earlier_stratification")
         elif kind == "age":
             name = "age"
             strata = list(r.choice(AGE_SETS))[: max(2, o.max_strata)]
@@ -512,7 +519,7 @@ class Gen:
                     if chained: self.count("adj:chained")
         if fadj: op["flow_adj"] = fadj
         # infectiousness adjustments
-        if o.allow_inf_adjust and not o.unadjusted and r.random() < 0.5:
+        if o.allow_inf_adjust and not o.unadjusted and r.random() < max(0.5, o.inf_adjust_bias):
             ia = []
             for cname in self.inf:
                 if cname in comps and r.random() < 0.7:
